@@ -138,4 +138,26 @@ theorem powi_primint_eq (pw : α → Int → α) (c : α) (e : Int) :
         lib_ConversionFactor_V_for_Ratio_powi_PrimInt [.host c, .int e] = (.val (.host (pw c e)), []) := by
   simp [lib_ConversionFactor_V_for_Ratio_powi_PrimInt, m_pow]
 
+/-- the fixed-width rational impls (`Rational`, `Rational32`, `Rational64`) forward to `Ratio::pow` -/
+theorem powi_rational_eq (pw : α → Int → α) (c : α) (e : Int) :
+    run ({ envPowi c id (fun x _ => x) with
+            meth := fun m args => if m = m_pow then (match args with
+              | [.host x, .int k] => .host (pw x k)
+              | _ => .bad) else .bad } : Env α)
+        lib_ConversionFactor_V_for_V_powi_Rational_Rational32_Rational64 [.host c, .int e] =
+      (.val (.host (pw c e)), []) := by
+  simp [lib_ConversionFactor_V_for_V_powi_Rational_Rational32_Rational64, m_pow]
+
+/-- the complex impl forwards to `Complex::powi` -/
+theorem powi_complex_eq (pw : α → Int → α) (c : α) (e : Int) :
+    run ({ envPowi c id (fun x _ => x) with
+            meth := fun m args => if m = m_powi then (match args with
+              | [.host x, .int k] => .host (pw x k)
+              | _ => .bad) else .bad } : Env α)
+        lib_ConversionFactor_V_for_VV_powi_Complex [.host c, .int e] = (.val (.host (pw c e)), []) := by
+  simp [lib_ConversionFactor_V_for_VV_powi_Complex, m_powi]
+
+/-- `pow` and `powi` are different methods: neither forward can be mistaken for the other -/
+theorem pow_ne_powi : m_pow ≠ m_powi := by decide
+
 end Uom.BodyEq.Powi
